@@ -5764,8 +5764,16 @@ write_function_instance(ostream &out, FunctionRemap *remap,
       expected_params += "NoneType";
 
     } else if (TypeManager::is_char(type)) {
-      indent(out, indent_level) << "char *" << param_name << "_str;\n";
-      indent(out, indent_level) << "Py_ssize_t " << param_name << "_len;\n";
+      if (is_optional) {
+        // PyArg_ParseTuple leaves the variables alone if the argument is
+        // omitted, so they have to start out describing the default value.
+        indent(out, indent_level) << "char " << param_name << "_default" << default_expr << ";\n";
+        indent(out, indent_level) << "char *" << param_name << "_str = &" << param_name << "_default;\n";
+        indent(out, indent_level) << "Py_ssize_t " << param_name << "_len = 1;\n";
+      } else {
+        indent(out, indent_level) << "char *" << param_name << "_str;\n";
+        indent(out, indent_level) << "Py_ssize_t " << param_name << "_len;\n";
+      }
 
       format_specifiers += "s#";
       parameter_list += ", &" + param_name + "_str, &" + param_name + "_len";
